@@ -448,7 +448,13 @@ func main() {
 			if !has {
 				astutil.AddNamedImport(p.Fset, f, "vsched", shimPath)
 			}
-			for _, imp := range []string{"time", "sync", "os/exec", "syscall", "github.com/fsnotify/fsnotify"} {
+			cleanup := []string{"time", "sync", "os/exec", "syscall", "github.com/fsnotify/fsnotify"}
+			for k := range r.extra { // import paths of the opt-in selector rewrites of this package
+				if i := strings.LastIndex(k, "."); i > 0 {
+					cleanup = append(cleanup, k[:i])
+				}
+			}
+			for _, imp := range cleanup {
 				if !astutil.UsesImport(f, imp) {
 					astutil.DeleteImport(p.Fset, f, imp)
 				}
